@@ -182,9 +182,10 @@ pub fn run(ctx: &Ctx) {
     }
     // every message length 0..=200, rotating hash / W / entry point
     for len in 0..=200usize {
-        let h = ALL_HASHES[(len + 1) % 6];
-        let w = [4u32, 8, 1, 2][(len / 6) % 4];
+      for h in ALL_HASHES {
+        let w = [4u32, 8, 1, 2][(len / 6 + h.index()) % 4];
         eight.push(SignCase { hash: h, levels: vec![(w, 2)], seed: gen::SeedSpec::Random(len as u64), counter: (len % 4) as u64, counter_class: "msg-len".into(), msg: gen::MsgSpec { len, tag: 1000 + len as u64 } });
+      }
     }
     ctx.enumerate("eight_levels", eight.len() as u64, false, |i| eight[i as usize].clone(), |c| check_sign_verifies(c, c.counter as u8));
 
